@@ -98,6 +98,34 @@ func Generate(t *rapid.T, schema *ast.Schema, opt Options) Op {
 	return Op{Query: sb.String(), Variables: g.vars, OpName: name, Kind: kind}
 }
 
+// GenerateSubscription draws a subscription on one root field of the Subscription type whose result is
+// an object: `subscription { <alias>: <field> <selection on its type> }` (fragments, aliases,
+// @skip/@include inside as in Generate).
+func GenerateSubscription(t *rapid.T, schema *ast.Schema, opt Options, field, alias string) Op {
+	if opt.MaxDepth == 0 {
+		opt.MaxDepth = 4
+	}
+	if opt.MaxFields == 0 {
+		opt.MaxFields = 20
+	}
+	g := &Gen{Schema: schema, Opt: opt, t: t, budget: opt.MaxFields, used: map[string]bool{}, keys: map[string]string{}, vars: map[string]any{}}
+	fd := schema.Subscription.Fields.ForName(field)
+	body := g.selectionSet(schema.Types[fd.Type.Name()], 1, false)
+	var sb strings.Builder
+	sb.WriteString("subscription")
+	if len(g.varDefs) > 0 {
+		sb.WriteString("(" + strings.Join(g.varDefs, ", ") + ")")
+	}
+	sb.WriteString(" { " + alias + ": " + field + " " + body + " }")
+	for _, f := range g.frags {
+		if !g.used[f.name] {
+			continue
+		}
+		sb.WriteString("\nfragment " + f.name + " on " + f.on + " " + f.body)
+	}
+	return Op{Query: sb.String(), Variables: g.vars, Kind: "subscription"}
+}
+
 func (g *Gen) boolVar(val bool) string {
 	g.nvar++
 	name := fmt.Sprintf("v%d", g.nvar)
